@@ -440,6 +440,14 @@ def completeUnbondings : M Unit := do
 
 /-! ## slash.go -/
 
+/-- the share amount `slashRedelegations` takes from a destination position: `ValidateDelegatedAmount`, capped at the
+    position's shares when that reports insufficient shares (repair 87751cb) -/
+def cappedShares (dlShares : Dec) (tokens : Int) (info : ValInfo) (a : Asset) : Except Err Dec :=
+  match validateDelegatedAmount dlShares tokens info a with
+  | .ok s => .ok s
+  | .error (.err "insufficient_shares") => .ok dlShares
+  | .error e => .error e
+
 /-- `slashRedelegations` -/
 def slashRedelegations (v : ValId) (fraction : Dec) : M Unit := do
   let w ← getW
@@ -464,10 +472,7 @@ def slashRedelegations (v : ValId) (fraction : Dec) : M Unit := do
         | some a =>
           let tokensToSlash := truncateInt (mulInt fraction r.amount)
           -- capped at what the position still holds
-          let sharesToSlash ← liftE (match validateDelegatedAmount dl.shares tokensToSlash dstVal.info a with
-            | .ok s => .ok s
-            | .error (.err "insufficient_shares") => .ok dl.shares
-            | .error e => .error e)
+          let sharesToSlash ← liftE (cappedShares dl.shares tokensToSlash dstVal.info a)
           let sc ← liftE (mkDecCoins a.denom sharesToSlash)
           let tds ← liftE (decCoinsSub dstVal.info.totalDelShares sc)
           setValidator { dstVal with info := { dstVal.info with totalDelShares := tds } }
